@@ -59,6 +59,19 @@ Theorem C14_output_bytes_deterministic : forall bd exts ann pkgs n r1 r2 o1 o2,
 Proof. exact CmpbBytesProofs.output_deterministic. Qed.
 Print Assumptions C14_output_bytes_deterministic.
 
+(* Range orders PER CALL: [CmpbBytes.reorder] applies one permutation function to every option list, a real run draws a fresh
+   order at every Range call.  Relationally: any two descriptors obtained from the printer's descriptor of a linked file by
+   permuting each of its option lists INDEPENDENTLY print the same tokens, and [reorder rng] is one of them *)
+Theorem C14_output_any_range_order : forall ann l,
+  (forall d1 d2, CmpbPrintBridgeProofs.dfile_equiv (CmpbBytes.to_print ann l) d1 -> CmpbPrintBridgeProofs.dfile_equiv (CmpbBytes.to_print ann l) d2 ->
+     ProtoPrintFile.print_file_tokens (CmpbBytes.st_of ann l) d1 = ProtoPrintFile.print_file_tokens (CmpbBytes.st_of ann l) d2)
+  /\ (forall rng, CmpbBytesProofs.ann_ok ann -> CmpbBytes.perm_fun rng ->
+        CmpbPrintBridgeProofs.dfile_equiv (CmpbBytes.to_print ann l) (CmpbBytes.reorder rng (CmpbBytes.to_print ann l))).
+Proof.
+  exact (fun ann l => conj (CmpbBytesProofs.any_range_variants_print_the_same ann l) (CmpbBytesProofs.reorder_is_variant ann l)).
+Qed.
+Print Assumptions C14_output_any_range_order.
+
 (* the package listing enters only as a set: hasAPrefix over localPrefixes (C14-C class: a package directory nested in
    another one, enclosing package listed first), and the bundle CompilePackage sees (localPackageNames + the path.Dir
    filter of listPackageFiles) is the same up to the order of each package's files; a package IS the same for both *)
